@@ -802,6 +802,11 @@ class MetaObj:
     def __init__(self, ino):
         self.kind = ino.kind
         self.len = ino.sb.length() if ino.kind == "file" else 4096
+        if getattr(ino, "ino_no", None) is None:
+            Inode._n += 1
+            ino.ino_no = 1000 + Inode._n
+        self.ino_id = ino.ino_no
+        self.nlink = ino.nlink
 
 
 # ---------------------------------------------------------------------------
